@@ -722,6 +722,9 @@ def c_trees(batch, limit=2048):
                 t += 2
             elif k in (X_ARR, X_MAP, X_CTRL):
                 t += 1
+            elif x["argw"] == 0 and k == X_TAG:
+                v = x["n"]
+                t += 1 if v < 24 else 2 if v < 256 else 3 if v < 65536 else 5 if v < (1 << 32) else 9
             else:
                 t += 1 + max(x["argw"], 1 if k in (X_UINT, X_NEGINT) else 0)
         return t
